@@ -30,6 +30,7 @@ def run(e, R, tier):
         L.r_lock_order,
         L.r_block_mgr,
         C.r_feeder,
+        C.r_feeder_hook,
         B.r_waitset,
         B.r_mgr_total,
         Rt.r_once,
